@@ -32,16 +32,22 @@ RULE = ("ser: random object graph over scalars/list/tuple/set/deque/dict/enum/da
         "(age-1us, age, age+1us), every status, activated 0/1/2, parent/child links, action references; e2e: program built "
         "from flow templates (start/await/activate/when/match groups, event/flow/action references, variables holding sets "
         "and nested containers) + random history; every cut point is enumerated for restore and for ageing. "
+        "value domain (all kinds): 18% of the scalars are drawn from non-finite/extreme floats, -0.0, ints beyond 2^53/2^64/the double range/2048 bits/4300 digits, "
+        "text-layer strings (NaN/Infinity/null as strings, U+2028, NUL, non-BMP, lone surrogates, 3000+ chars), float dict keys, empty containers, chains 20-100 deep (ser) "
+        "and while-loop nesting 30-200 deep (e2e); they enter through literals, arithmetic, incoming event payloads, action results, flow parameters and the API; "
+        "every ser value goes through the repo's state_to_json/json_to_state inside a real State. "
         "non-trivial = ser: graph has a container of depth>=2 or a shared object; cleanup: at least one record removed and one "
         "kept; e2e: history produced at least two non-empty outputs and the state at some cut held >= 3 flow instances.")
 TRUSTED_BASE = [
     "translator harness/translate/c11.py (class/field/enum tables by introspection of the tree under test, clean-up age by AST path)",
     "correspondence harness harness/props/C11.py + harness/impl/c11pv.py + Lean driver Drive/C11.lean (codecs on both sides)",
-    "CPython json module (modelled as identity on JSON values + key stringification), dataclass constructors, pydantic (RailsConfig.model_validate not exercised)",
+    "CPython json module (modelled as identity on JSON values + key stringification; allow_nan and the three non-standard float tokens are modelled and tied by the tokens case), dataclass constructors, pydantic (RailsConfig.model_validate not exercised)",
     "the behavioural continuation claim (T3) is NOT carried by a theorem: it is tested on the real interpreter at every cut point of the generated histories",
 ]
 ASSUMPTIONS = [
-    "dict keys are None/bool/int/str or flat tuples of them (no float keys, no nested tuple keys; equal keys such as 1/True are not generated together); floats finite and dyadic",
+    "Lean model: dict keys are None/bool/int/str or flat tuples of them (float keys are generated and decided by the oracle only; no nested tuple keys; equal keys such as 1/True/1.0 are not generated together); "
+    "floats = finite doubles (exact dyadics), -0.0, nan, inf, -inf; strings with lone surrogates and ints beyond 4300 digits are oracle-only (not UTF-8 / decimal transportable to the driver)",
+    "container nesting depth <= 100 (generated) — CPython's recursion limit bounds encode_to_dict/json at depth ~1000: a resource bound like memory, not part of the statement",
     "function-level models: Serialize.encode/decode (sharing-free reading), CleanUp.cleanUp (well-formed flow_id_states index)",
     "fake clock replaces statemachine.datetime / flows.datetime; uuids come from a counter; random.choice picks the first candidate",
 ]
@@ -80,20 +86,40 @@ KEYS = ["x", "y", "z", "k1", "k2", "name", "__type", "value", "_p"]
 ENUMS = [("FlowStatus", "FINISHED"), ("FlowStatus", "WAITING"), ("FlowHeadStatus", "ACTIVE"), ("ActionStatus", "STARTED"), ("InteractionLoopType", "NEW"), ("SpecOpType", "MATCH")]
 
 
+# the rest of the value domain of a flow variable / event argument / action result (everything a Colang expression, an incoming
+# event or an action can put into the state): non-finite and extreme floats, -0.0, ints beyond 64 bits and beyond the range of a
+# double, strings that stress the JSON text layer (the tokens json.dumps writes for nan/inf, line separators, NUL, non-BMP, lone
+# surrogates, long), markers of the serializer's own format
+import math as _math
+
+SPECIAL_SCALARS = [
+    _math.inf, -_math.inf, _math.nan, -0.0, 0.0, 1.7976931348623157e308, -1.7976931348623157e308, 5e-324, 1e-320, 2.2250738585072014e-308, 0.1, 1e16, 1 / 3,
+    2 ** 53 + 1, 2 ** 63, -(2 ** 63) - 1, 2 ** 64, 10 ** 30, -(10 ** 400), 2 ** 1024, 2 ** 3000, -(2 ** 14000), 10 ** 5000,
+    "NaN", "Infinity", "-Infinity", "null", "-0.0", "\u2028x\u2029", "\x00", "\x7f\x85", "é😀", "\ud800", "a\udfffb", "\\\"/\n\t", "__id", "__ref_count", "items",
+    "L" * 3000,
+]
+
+
 def enc_scalar(x):
     if x is None or isinstance(x, bool):
         return x
     if isinstance(x, int):
-        return {"i": x}
+        return pv.icode(x)
     if isinstance(x, float):
-        return {"f": list(pv.dyadic(x))}
-    return {"s": x}
+        return {"f": pv.fcode(x)}
+    return pv.scode(x)
+
+
+def pick_scalar(rng):
+    if rng.random() < 0.18:
+        return rng.choice(SPECIAL_SCALARS)
+    return rng.choice(SCALARS)
 
 
 def g_hashable(rng, depth=1):
     r = rng.random()
     if r < 0.7 or depth <= 0:
-        return enc_scalar(rng.choice([s for s in SCALARS if s != "__obj"]))
+        return enc_scalar(pick_scalar(rng))
     if r < 0.85:
         return {"t": [g_hashable(rng, depth - 1) for _ in range(rng.randrange(3))]}
     return {"e": list(rng.choice(ENUMS))}
@@ -103,7 +129,7 @@ def g_raw(rng, depth):
     """JSON-native payload for Action.context / start_event_arguments"""
     r = rng.random()
     if depth <= 0 or r < 0.5:
-        return enc_scalar(rng.choice(SCALARS))
+        return enc_scalar(pick_scalar(rng))
     if r < 0.75:
         return {"l": [g_raw(rng, depth - 1) for _ in range(rng.randrange(3))]}
     return {"d": [[{"s": k}, g_raw(rng, depth - 1)] for k in rng.sample(["x", "y", "z", "q"], rng.randrange(3))]}
@@ -115,7 +141,7 @@ def g_value(rng, depth, npool, bad=None):
     if npool and r < 0.12:
         return {"share": rng.randrange(npool)}
     if depth <= 0 or r < 0.3:
-        return enc_scalar(rng.choice(SCALARS))
+        return enc_scalar(pick_scalar(rng))
     sub = lambda: g_value(rng, depth - 1, npool)  # noqa: E731
     n = rng.choice([0, 1, 1, 2, 2, 3])
     if r < 0.42:
@@ -128,7 +154,10 @@ def g_value(rng, depth, npool, bad=None):
         return {"q": [sub() for _ in range(n)]}
     if r < 0.74:
         if rng.random() < 0.2:  # non-string keys: written as an item list since d13eeb5
-            pool = [None, True, {"i": 0}, {"i": 5}, {"i": -2}, {"s": "k"}, {"s": "__type"}, {"T": []}, {"T": [{"i": 1}, {"s": "b"}]}, {"T": [None, False]}]
+            pool = [None, True, {"i": 0}, {"i": 5}, {"i": -2}, {"s": "k"}, {"s": "__type"}, {"T": []}, {"T": [{"i": 1}, {"s": "b"}]}, {"T": [None, False]},
+                    {"i": 2 ** 64}, {"s": ""}, {"s": "é😀"}]
+            if rng.random() < 0.25:  # float keys: every hashable scalar kind (decided by the oracle; the Lean key universe has no floats)
+                pool += [{"F": [3, 1]}, {"F": "nan"}, {"F": "inf"}, {"F": "-inf"}, {"F": [1, 1074]}]
             ks = rng.sample(pool, min(n, 3))
             if True in ks and {"i": 1} in ks:
                 ks.remove(True)
@@ -186,12 +215,13 @@ def g_action(rng, bad=False):
                   rng.choice(["INITIALIZED", "STARTING", "STARTED", "STOPPING", "FINISHED"]), ctx, args, rng.randrange(3)]}
 
 
-BAD_KINDS = ["regex", "cmp", "other", "intkey", "nonekey", "boolkey", "tuplekey", "action_set", "action_tuple", "action_typekey", "partial"]
+BAD_KINDS = ["regex", "cmp", "other", "bytes", "view", "method", "intkey", "nonekey", "boolkey", "tuplekey", "action_set", "action_tuple", "action_typekey", "partial"]
 
 
 def plant(rng, v, kind):
     """put one unsupported leaf somewhere in v (returns a new value)"""
     leaf = {"regex": {"r": rng.choice(pv.REGEXES)}, "cmp": {"c": [rng.choice(["less_than", "equal_greater_than", "not_equal_to"]), rng.choice([{"i": 3}, {"f": [5, 1]}, True])]}, "other": {"o": "Unknown"}, "partial": {"p": 1},
+            "bytes": {"o": "bytes"}, "view": {"o": rng.choice(["dict_keys", "dict_values", "dict_items"])}, "method": {"o": "builtin_function_or_method"},
             "intkey": {"d": [[{"i": rng.choice([1, 0, -2])}, {"s": "a"}], [{"s": "k"}, {"i": 1}]]},
             "nonekey": {"d": [[None, {"i": 3}], [{"s": "s"}, {"r": ["a+", 32]}]]}, "boolkey": {"d": [[True, {"i": 4}]]},
             "tuplekey": {"d": [[{"T": rng.choice([[], [{"i": 1}, {"s": "b"}], [None, True]])}, {"i": 5}], [{"i": 7}, {"l": [{"s": "x"}]}]]},
@@ -230,13 +260,19 @@ def g_ser_case(rng, depth):
                 v = {"d": [[{"s": "x"}, v]]}
             pool.append(v)
     v = g_value(rng, depth, npool)
+    if rng.random() < 0.05:
+        # deep nesting: a chain of 20..100 containers around the value — of one kind (a depth limit per container kind) or mixed
+        chain = rng.choice(["mixed", "mixed", "l", "l", "d", "t", "q", "di"])
+        for _ in range(rng.randrange(20, 101)):
+            w = rng.random() if chain == "mixed" else {"l": 0.0, "d": 0.5, "t": 0.8, "q": 0.9, "di": 0.99}[chain]
+            v = {"l": [v]} if w < 0.4 else {"d": [[{"s": "n"}, v]]} if w < 0.7 else {"t": [v]} if w < 0.85 else {"q": [v]} if w < 0.95 else {"d": [[{"i": 1}, v]]}
     if npool and rng.random() < 0.8:
         v = {"l": [v] + [{"share": rng.randrange(npool)} for _ in range(rng.randrange(1, 4))]}
     bad = None
     if rng.random() < 0.12:
         bad = rng.choice(BAD_KINDS)
         v = plant(rng, v, bad)
-    if rng.random() < 0.15:
+    if rng.random() < 0.25:
         # a whole `State` as the root: goes through state_to_json / json_to_state (callbacks re-created)
         fss = []
         for i in range(rng.randrange(1, 4)):
@@ -292,10 +328,19 @@ def g_cleanup_case(rng):
 
 # ============================================================================= generators: e2e programs
 
+# values only an expression can make (`float` is one of the functions of the expression language), beyond the plain literals
+SPECIAL_LITERALS = [
+    'float("inf")', 'float("-inf")', 'float("nan")', "1e308 * 10", "-1e308 * 10", 'float("inf") - float("inf")', "-0.0", "0.0 * -1", "5e-324", "1.7976931348623157e308", "0.1 + 0.2",
+    '[float("nan"), {"lim": float("inf")}]', '{float("inf"), 1.5}', '{"lo": float("-inf"), "hi": float("inf"), "z": -0.0}', '{1.5: "x", float("inf"): "top"}', 'greater_than(float("-inf"))',
+    "2 ** 80", "10 ** 400", "0 - 2 ** 63 - 1", '"\\ud800"', '"\\u2028\\u2029"', '"NaN"', '"é😀"', '"a" * 4000', "[[[[[[[[[[[[[[[[[[[[1.5]]]]]]]]]]]]]]]]]]]]",
+    "{}", "[]", '[[], {}, [{}]]', '{"e": {}}',
+]
 LITERALS = [
     '{"a", "b"}', '{1, 2, 3}', 'regex("a+")', '{1: "one", 2: [3, {"k": regex("b")}]}', '[1, [2, {"k": "v"}]]', '{"k": [1, 2], "n": {"z": {"q", "r"}}}', '[{"x"}, {"y": {1}}]', '"txt"', "42", "2.5", "True", "None", "[]", '{"only"}',
 ]
-BAD_LITERALS = {"regex": 'regex("a+")', "cmp": "less_than(3)", "intkey": '{1: "one", 2: "two"}'}
+BAD_LITERALS = {"regex": 'regex("a+")', "cmp": "less_than(3)", "intkey": '{1: "one", 2: "two"}',
+                # values of built-in types the encoder has no branch for / CPython cannot write in decimal (open findings)
+                "bytes": '"abc".encode()', "view": '{"a": 1}.keys()', "method": "[1].append", "hugeint": "10 ** 5000"}
 
 SUBFLOWS = {
     "helper": "flow helper $p\n  match Go(k=$p)\n  send HelperDone(p=$p)\n",
@@ -359,7 +404,19 @@ def g_program(rng, want=None):
     for _ in range(nstmt):
         r = rng.random()
         if r < 0.16:
-            lines.append(f"  {newval()} = {rng.choice(LITERALS)}")
+            w = rng.random()
+            if w < 0.06 and "deep-loop" not in feats:
+                # nesting as deep as a loop makes it (no literal is that deep): lists or dicts, 30..120 levels
+                v, i = newval(), newvar()
+                k = rng.randrange(30, 101)
+                wrap = rng.choice(["[{v}]", '{{"k": {v}}}', '[0, {{"in": {v}}}]']).format(v=v)
+                lines += [f"  {v} = [1.5]", f"  {i} = 0", f"  while {i} < {k}", f"    {v} = {wrap}", f"    {i} = {i} + 1"]
+                feats.add("deep-loop")
+            elif w < 0.3:
+                lines.append(f"  {newval()} = {rng.choice(SPECIAL_LITERALS)}")
+                feats.add("special-literal")
+            else:
+                lines.append(f"  {newval()} = {rng.choice(LITERALS)}")
         elif r < 0.2 and valvars:
             src = anyvar()
             lines.append(f"  {newval()} = {src}")
@@ -450,7 +507,10 @@ def g_history(rng, n, src=""):
     for _ in range(n):
         r = rng.random()
         if r < 0.12:
-            h.append({"finish": rng.randrange(3)})
+            fin = {"finish": rng.randrange(3)}
+            if rng.random() < 0.3:  # what an action may return: a score / distance / time-out that is not finite, a huge count, odd text
+                fin["res"] = enc_scalar(rng.choice(SPECIAL_SCALARS))
+            h.append(fin)
         elif r < 0.16:
             h.append({"started": rng.randrange(3)})
         else:
@@ -460,6 +520,9 @@ def g_history(rng, n, src=""):
                 ev["k"] = rng.choice(ks) if rng.random() < 0.85 else rng.choice([1, 2, 3, 7])
             elif e in ("Ping", "E1", "E2", "E3", "E4"):
                 ev["x"] = rng.choice([1, "s", [1, 2], {"k": "v"}, None])
+                if rng.random() < 0.2:  # an incoming event may carry any JSON-ish payload the embedding application computed
+                    sp = enc_scalar(rng.choice(SPECIAL_SCALARS))
+                    ev["x"] = {"$pv": sp if rng.random() < 0.6 else {"d": [[{"s": "lim"}, sp], [{"s": "vals"}, {"l": [sp, {"i": 1}]}]]}}
             h.append(ev)
     return h
 
@@ -494,7 +557,7 @@ flow main
 
 
 def g_rails_case(rng, want=None):
-    lit = BAD_LITERALS[want] if want else rng.choice(LITERALS)
+    lit = BAD_LITERALS[want] if want else rng.choice(LITERALS + SPECIAL_LITERALS[:16])
     turns = [rng.choice(["hi", "again", "bye", "go", "other"]) for _ in range(rng.randrange(2, 6))]
     if rng.random() < 0.7:
         turns[0] = "hi"
@@ -518,6 +581,8 @@ def gen_cases(rng, tier):
             want = "alias"
         elif r < 0.09:
             want = "cycle"
+        elif r < 0.12:
+            want = rng.choice(["bytes", "view", "method", "hugeint"])
         ml = maxlen if tier == "quick" else rng.choice([8, 8, 12, 12, 25])
         cases.append(g_e2e_case(rng, ml, want))
     for i in range(12 if tier == "quick" else 160):
@@ -583,7 +648,29 @@ def worker_init():
     _M.update(sm=sm, flows=flows, ser=ser, parse=parse_colang_file, mkcfg=create_flow_configs_from_flow_list)
 
 
+def _safe(x):
+    """observations are written to UTF-8 files and hashed by the runner: a raw string with a lone surrogate (an error message
+    quoting a value, a reply) must not travel as such (values themselves are coded by pv.scode); non-finite floats neither"""
+    if isinstance(x, str):
+        try:
+            x.encode("utf-8")
+            return x
+        except UnicodeEncodeError:
+            return x.encode("utf-8", "backslashreplace").decode("utf-8")
+    if isinstance(x, float) and (x != x or x in (float("inf"), float("-inf"))):
+        return "float:" + repr(x)
+    if isinstance(x, dict):
+        return {_safe(k): _safe(v) for k, v in x.items()}
+    if isinstance(x, (list, tuple)):
+        return [_safe(v) for v in x]
+    return x
+
+
 def run_impl(case):
+    return _safe(_run_impl(case))
+
+
+def _run_impl(case):
     if not _M:
         worker_init()
     k = case["kind"]
@@ -609,6 +696,8 @@ def run_impl(case):
             signal.signal(signal.SIGVTALRM, old)
     if k == "rails":
         return run_rails(case)
+    if k == "tokens":
+        return run_tokens(case)
     if k == "api":
         return api.run_api(case, _Clock, _FakeRandomBits)
     raise ValueError(k)
@@ -677,6 +766,10 @@ def _exc_kind(e):
         return "typeError"
     if isinstance(e, KeyError):
         return "keyError"
+    if isinstance(e, ValueError) and "Out of range float" in s:
+        return "valueError"  # json.dumps(allow_nan=False)
+    if isinstance(e, ValueError) and "integer string conversion" in s:
+        return "intDigits"  # CPython's int -> decimal str limit (4300 digits)
     if type(e) is Exception and "Unknown d_type" in s:
         return "unknownType"
     if type(e) is Exception and "Could not find reference" in s:
@@ -716,9 +809,14 @@ def run_ser(case):
         obs["sharing_kept"] = pv.sharing_signature(back) == sig0
         obs["aliased_lists_after"] = pv.aliased_lists(back)
         return obs
+    # Every value goes through the repo's own `state_to_json` / `json_to_state` (and therefore through its `json.dumps` /
+    # `json.loads` calls with whatever options they pass): the value sits in the global context of an otherwise empty real `State`;
+    # the part of the document that encodes it is what the model is asked about.  `d` (python ids still in it) is used for the
+    # refs comparison only.
+    wrapper = _M["flows"].State(flow_states={}, flow_configs={}, context={"v": obj})
     try:
+        text = ser.state_to_json(wrapper)
         d = ser.encode_to_dict(obj, {})
-        text = json.dumps(d)
     except Exception as e:  # noqa
         obs["enc_exc"] = _exc_kind(e)
         obs["enc_msg"] = str(e)[:120]
@@ -729,11 +827,16 @@ def run_ser(case):
         obs["enc_refs"] = pv.real_encoding_normal_form(d, ids)
     except Exception:  # noqa  -- a value outside the labelled universe (functools.partial leaves are fine, unknown classes are not)
         pass
-    parsed = json.loads(text)
-    if '"__id"' not in text:
-        obs["enc"] = pv.plain_json_to_model(parsed)
     try:
-        back = ser.decode_from_dict(json.loads(text), {})
+        sub = json.loads(text)["value"]["context"]["value"]["v"]
+    except Exception as e:  # noqa
+        from ..translate.util import TieBroken
+
+        raise TieBroken(f"state_to_json: the document of a State no longer has value.context.value.<name> ({type(e).__name__})")
+    if '"__id"' not in text:
+        obs["enc"] = pv.plain_json_to_model(sub)
+    try:
+        back = ser.json_to_state(text).context["v"]
     except Exception as e:  # noqa
         obs["dec_exc"] = _exc_kind(e)
         obs["dec_msg"] = str(e)[:120]
@@ -742,6 +845,31 @@ def run_ser(case):
     obs["sharing_kept"] = pv.sharing_signature(back) == sig0
     obs["aliased_lists_after"] = pv.aliased_lists(back)
     return obs
+
+
+def run_tokens(case):
+    """text layer: what the repo's `state_to_json` really writes for each kind of float and what `json_to_state` reads back
+    (the token is cut out of the document of a State whose global context holds the float under the name "v")"""
+    ser, flows = _M["ser"], _M["flows"]
+    rows = []
+    for code in ("nan", "inf", "-inf", "-0", [1, 1]):
+        x = pv.fbuild(code)
+        row = {"f": code}
+        try:
+            text = ser.state_to_json(flows.State(flow_states={}, flow_configs={}, context={"v": x}))
+        except Exception as e:  # noqa
+            row["dumps"] = _exc_kind(e)
+            rows.append(row)
+            continue
+        row["dumps"] = "ok"
+        m = re.search(r'"v": ([^,}\s]+)', text)
+        row["token"] = m.group(1) if m else None
+        try:
+            row["back"] = pv.fcode(ser.json_to_state(text).context["v"])
+        except Exception as e:  # noqa
+            row["back"] = "EXC:" + _exc_kind(e)
+        rows.append(row)
+    return {"rows": rows}
 
 
 def run_cleanup(case):
@@ -844,7 +972,7 @@ class _Run:
 
     def concrete(self, ev):
         if "type" in ev:
-            return dict(ev)
+            return {k: (pv.build(v["$pv"]) if isinstance(v, dict) and "$pv" in v else v) for k, v in ev.items()}
         pending = [a for a in self.started if a[0] not in self.finished]
         if not pending:
             return {"type": "Noop"}
@@ -856,6 +984,8 @@ class _Run:
                 out["final_script"] = "done"
             else:
                 out["result"] = {"r": [1, 2]}
+            if "res" in ev:
+                out["final_script" if name == "UtteranceBotAction" else "result"] = pv.build(ev["res"])
             return out
         uid, name = pending[ev["started"] % len(pending)]
         return {"type": name + "Started", "action_uid": uid}
@@ -912,9 +1042,14 @@ def _state_facts(state):
     """structural facts about a reached state, used by signature()"""
     from dataclasses import is_dataclass
 
-    facts = {"nonstr_keys": False, "regex": False, "cmp": False}
+    facts = {"nonstr_keys": False, "regex": False, "cmp": False, "builtin_other": False, "huge_int": False}
+    views = (type({}.keys()), type({}.values()), type({}.items()), type([].append), bytes)
     seen = set()
     stack = [fs.context for fs in state.flow_states.values()] + [state.context]
+    # a value also lives in the state through the action it was reported by / sent to and through the event lists
+    stack += [x for a in state.actions.values() for x in (a.context, a.start_event_arguments)]
+    stack += [fs.arguments for fs in state.flow_states.values()]
+    stack += list(state.last_events) + list(state.internal_events) + list(state.outgoing_events)
     n = 0
     while stack and n < 50000:
         x = stack.pop()
@@ -930,6 +1065,10 @@ def _state_facts(state):
             stack.extend(x)
         elif isinstance(x, re.Pattern):
             facts["regex"] = True
+        elif isinstance(x, views):
+            facts["builtin_other"] = True
+        elif isinstance(x, int) and pv.too_long_for_decimal(x):
+            facts["huge_int"] = True
         elif type(x).__name__ == "ComparisonExpression":
             facts["cmp"] = True
         elif is_dataclass(x) and type(x).__name__ in ("Event", "InternalEvent", "ActionEvent"):
@@ -977,8 +1116,12 @@ def _graph_diff(a, b):
         if type(x) is not type(y) and not (isinstance(x, dict) and isinstance(y, dict)):
             # (AttributeDict vs dict is invisible: every variable read re-wraps dicts, eval.py)
             return f"{path}: type {type(x).__name__} vs {type(y).__name__}"
-        if x is None or isinstance(x, (bool, int, float, str)):
-            if x != y and not (isinstance(x, float) and x != x):
+        if isinstance(x, float):
+            if pv.fcode(x) != pv.fcode(y):  # nan is nan, -0.0 is not 0.0
+                return f"{path}: {x!r} vs {y!r}"
+            continue
+        if x is None or isinstance(x, (bool, int, str)):
+            if x != y:
                 return f"{path}: {x!r} vs {y!r}"
             continue
         if isinstance(x, (Enum, datetime)):
@@ -1010,7 +1153,7 @@ def _graph_diff(a, b):
         elif isinstance(x, Action):
             stack.extend((getattr(x, f), getattr(y, f), f"{path}.<action>.{f}", False) for f in ("uid", "name", "flow_uid", "status", "context", "start_event_arguments", "flow_scope_count"))
         elif isinstance(x, set):
-            if x != y:
+            if pv.canon(pv.observe(x)) != pv.canon(pv.observe(y)):  # by exact value (a restored nan is another object: {nan} != {nan})
                 return f"{path}: set {x} vs {y}"
         elif isinstance(x, tuple) or type(x).__name__ == "deque":
             if len(x) != len(y):
@@ -1024,7 +1167,9 @@ def _graph_diff(a, b):
 
 def _shallow(v, d=0):
     """comparable picture of a context value: containers by value, runtime objects by class and uid"""
-    if v is None or isinstance(v, (bool, int, float, str)):
+    if isinstance(v, float):
+        return {"f": pv.fcode(v)}  # nan != nan: floats are compared by their exact code
+    if v is None or isinstance(v, (bool, int, str)):
         return v
     if d > 6:
         return "<deep>"
@@ -1248,10 +1393,14 @@ def run_e2e(case):
 
 def model_requests(case, obs):
     if case["kind"] == "ser":
+        if pv.unmodelled(obs["seen"]):
+            return []  # outside the wire format of the driver (lone surrogates, float keys, ints beyond 4300 digits): oracle only
         reqs = [{"m": "C11.ser", "v": obs["seen"]}]
         if "cv" in obs:
             reqs.append({"m": "C11.shared", "t": obs["cv"]})
         return reqs
+    if case["kind"] == "tokens":
+        return [{"m": "C11.tokens"}]
     if case["kind"] == "cleanup":
         return [{"m": "C11.cleanup", "now": case["now"], "flows": case["flows"], "idx": case["idx"], "actions": case["actions"]}]
     return []
@@ -1289,6 +1438,20 @@ def compare(case, obs, mouts):
                 return "encoder with refs differs from Shared.encodeC: " + first_diff(obs["enc_refs"], want)
             if not mouts[1]["wf"] or not mouts[1]["decodes"]:
                 return "model: Shared.decodeC fails on Shared.encodeC output (wf=%s)" % mouts[1]["wf"]
+        return None
+    if case["kind"] == "tokens":
+        for r, mr in zip(obs["rows"], m["rows"]):
+            if r["f"] != mr["f"]:
+                return "tokens: row order"
+            want = "ok" if mr["dumps"] == "ok" else mr["dumps"].get("err")
+            if r["dumps"] != want:
+                return f"json.dumps of float {r['f']}: implementation {r['dumps']}, model {want} (allow_nan={m['allow_nan']})"
+            if r["dumps"] != "ok":
+                continue
+            if mr["token"] is not None and (r["token"] != mr["token"] or r["back"] != mr["back"]):
+                return f"text layer, float {r['f']}: implementation writes {r['token']} and reads back {r['back']}, model {mr['token']} / {mr['back']}"
+            if mr["token"] is None and r["token"] in ("NaN", "Infinity", "-Infinity"):
+                return f"text layer: the finite float {r['f']} is written as the constant {r['token']}"
         return None
     if case["kind"] == "cleanup":
         if "exc" in obs:
@@ -1372,6 +1535,13 @@ def oracle(case, obs):
         return None
     if "skip" in obs:
         return None
+    if k == "tokens":
+        for r in obs["rows"]:
+            if r["dumps"] != "ok":
+                return f"state_to_json raises on a State whose global context holds the float {r['f']}: {r['dumps']}"
+            if r["back"] != r["f"]:
+                return f"the float {r['f']} in the global context is restored as {r['back']} (written as {r['token']})"
+        return None
     if k == "rails":
         for i, (a, b) in enumerate(zip(obs["live"], obs["saved"])):
             if isinstance(b, str) and b.startswith("EXC:"):
@@ -1414,6 +1584,18 @@ _ORDER = ["callbacks", "decode", "ageing-diverges", "aged-relation", "restore-di
 
 def _worst(problems):
     return sorted(problems, key=lambda p: (_ORDER.index(p["what"]), p["cut"]))[0]
+
+
+def max_depth(j, d=0):
+    if isinstance(j, dict):
+        for t in ("l", "t", "q", "S"):
+            if t in j:
+                return max([max_depth(x, d + 1) for x in j[t]] + [d + 1])
+        if "d" in j:
+            return max([max_depth(v, d + 1) for _, v in j["d"]] + [d + 1])
+        if "D" in j:
+            return max([max_depth(v, d + 1) for _, v in j["D"][1]] + [d + 1])
+    return d
 
 
 def strip_partials(j):
@@ -1497,6 +1679,10 @@ def signature(case, obs, msg):
                 return "state-holds-comparison"
             if "not JSON serializable" in msg or "keys must be" in msg:
                 return "action-payload-not-json"
+        if _pv_has(seen, lambda j: isinstance(j, dict) and j.get("o") in pv.BUILTIN_OTHERS):
+            return "state-holds-unserialisable-builtin"
+        if _pv_has(seen, lambda j: isinstance(j, dict) and "ih" in j and pv.too_long_for_decimal(int(j["ih"], 16))):
+            return "int-beyond-str-digits"
         if _pv_has(seen, lambda j: isinstance(j, dict) and "c" in j):
             return "state-holds-comparison"
         if _pv_has(seen, lambda j: isinstance(j, dict) and "a" in j):
@@ -1512,7 +1698,7 @@ def signature(case, obs, msg):
         if any(_removable(f, case["now"]) and f["uid"] in needed for f in case["flows"]):
             return "cleanup-dangling-parent"
         return None
-    if k in ("rails", "api"):
+    if k in ("rails", "api", "tokens"):
         return None
     probs = obs.get("problems") or []
     if not probs:
@@ -1526,6 +1712,10 @@ def signature(case, obs, msg):
             return "cyclic-state-reference"
         if p["kind"] == "typeError" and facts.get("action_nonjson"):
             return "action-payload-not-json"
+        if p["kind"] == "unhandled" and facts.get("builtin_other") and re.search(r"'(bytes|dict_keys|dict_values|dict_items|builtin_function_or_method)'", p["msg"]):
+            return "state-holds-unserialisable-builtin"
+        if p["kind"] == "intDigits" and facts.get("huge_int"):
+            return "int-beyond-str-digits"
         return None
     if p["what"] == "ageing-diverges" and "KeyError" in json.dumps(p.get("copy")) and len(re.findall(r"activate shared", case["src"])) >= 2:
         return "cleanup-dangling-parent"
@@ -1550,6 +1740,8 @@ def nontrivial(case, obs):
         return obs.get("n_shared", 0) > 0 or s.count("[") > 6
     if k == "cleanup":
         return "flows" in obs and 0 < len(obs["flows"]) < len(case["flows"])
+    if k == "tokens":
+        return True
     if k == "rails":
         return "live" in obs and sum(1 for o in obs["live"] if o and not isinstance(o, str)) >= 2
     if k == "api":
@@ -1576,6 +1768,17 @@ def tags(case, obs):
             t.append("refs-json-compared")
         if obs.get("root_state"):
             t.append("root:State")
+        um = pv.unmodelled(obs.get("seen"))
+        if um:
+            t.append("oracle-only:" + um)
+        sj = json.dumps(obs.get("seen"))
+        for name, pat in (("float:nan", '"f": "nan"'), ("float:inf", '"f": "inf"'), ("float:-inf", '"f": "-inf"'), ("float:-0", '"f": "-0"'), ("surrogate", '"su"'), ("float-key", '"F"')):
+            if pat in sj:
+                t.append("dom:" + name)
+        if re.search(r'"i": -?\d{20,}', sj):
+            t.append("dom:bigint")
+        if sj.count("[") > 150 and max_depth(obs.get("seen")) >= 20:
+            t.append("dom:deep>=20")
     elif k == "cleanup":
         if "exc" in obs:
             t.append("exc:" + obs["exc"])
@@ -1583,6 +1786,8 @@ def tags(case, obs):
             t.append("removed:" + str(min(len(case["flows"]) - len(obs["flows"]), 4)))
             if any(abs(-f["updated"] - AGE_US) <= 1 for f in case["flows"]):
                 t.append("boundary-age")
+    elif k == "tokens":
+        t.extend("token:" + str(r.get("token")) for r in obs["rows"])
     elif k == "rails":
         t.append("rails-turns:" + str(len(case["turns"])))
         if "skip" in obs:
@@ -1661,3 +1866,7 @@ def shrink(case):
                     yield dict(case, v={"d": v["d"][:i] + v["d"][i + 1:]})
                 for _, x in v["d"]:
                     yield dict(case, v=x)
+            if "D" in v:
+                for _, x in v["D"][1]:
+                    if isinstance(x, dict):
+                        yield dict(case, v=x)
